@@ -98,27 +98,36 @@ fn main() {
                 eprintln!("  {} : states={} transitions={} {:.1}s {}", r.family, r.stats.states, r.stats.transitions, r.wall_s, r.note);
                 ev.families.push(r);
             }
-            // deep / dense families first (uncapped), bulk last (wall-capped in the quick tier)
-            let mut fams = vec![
-                families::f1(),
-                families::fsetup(2, 2),
-                families::fs_sel(&verif_dir().join("seeds"), thorough, thorough),
+            // Families closed under the symmetries are run with one primary per orbit (exact reduction, see sym::run_family);
+            // the seeds are used as written (their images are the lock-step partners).  Quick: reduced kinds for F2,
+            // hand-made + max-mobility seeds; thorough: all kinds, all seeds, 3-piece windows.
+            let mut fams: Vec<(families::Family, bool)> = vec![
+                (families::f1(), true),
+                (families::fsetup(2, 2), false),
+                (if thorough { families::f2() } else { families::f2k(&families::KINDS8, "RCDErcde") }, true),
+                (families::fd(2, 2, families::all_anchors(2, 2), 3, "all 49 anchors"), true),
+                (if thorough { families::fplus(families::interior_squares(), 3, "every interior square") } else { families::fplus(vec![18, 35], 3, "trap c6, d4") }, thorough),
+                (if thorough { families::fs_variants(&verif_dir().join("seeds"), 1, 1) } else { families::fs_files(&verif_dir().join("seeds"), &["handmade.txt", "handmade2.txt"], 1) }, false),
             ];
-            let uncapped = fams.len();
-            fams.push(families::f2());
-            fams.push(if thorough { families::fplus(families::interior_squares(), 3, "every interior square") } else { families::fplus(vec![18, 35], 3, "trap c6, d4") });
-            fams.push(families::fd(2, 2, families::all_anchors(2, 2), 3, "all 49 anchors"));
             if thorough {
-                fams.push(families::f3w(None, &families::ALL_KINDS, "all 36 windows, all 12 kinds"));
+                fams.push((families::f3w(None, &families::ALL_KINDS, "all 36 windows, all 12 kinds"), true));
             }
-            for (fi, fam) in fams.iter().enumerate() {
+            // the seed family has few, heavy roots (sequential inside a root): it runs alongside the bulk families
+            let run_one = |fam: &families::Family, orbit: bool| -> Option<report::FamilyResult> {
                 if fam.n == 0 || report::stopped() {
-                    continue;
+                    return None;
                 }
-                let r = sym::run_family(id, fam, if fi < uncapped { None } else { deadline });
+                let r = sym::run_family(id, fam, if thorough { deadline } else { None }, orbit);
                 eprintln!("  {} : roots={} states={} transitions={} {:.1}s {}", r.family, r.stats.roots, r.stats.states, r.stats.transitions, r.wall_s, r.note);
-                ev.families.push(r);
-            }
+                Some(r)
+            };
+            let (heavy, bulk): (Vec<_>, Vec<_>) = fams.iter().partition(|(f, _)| f.name.starts_with("FS "));
+            let (rh, rb) = rayon::join(
+                || heavy.iter().filter_map(|(f, o)| run_one(f, *o)).collect::<Vec<_>>(),
+                || bulk.iter().filter_map(|(f, o)| run_one(f, *o)).collect::<Vec<_>>(),
+            );
+            ev.families.extend(rb);
+            ev.families.extend(rh);
             ev.nontrivial_rule = "states = distinct primary states, each compared with its 3 images (counter c11_state_pairs_compared); non-trivial = primary states where the repetition rules withhold something + capturing transitions".into();
             ev.nontrivial_keys = vec!["c11_states_with_withheld_action", "c11_capturing_transitions"];
         }
